@@ -7,12 +7,12 @@ func components(id string) map[string]any {
 	case "C01":
 		return map[string]any{
 			"real": []string{"lexer (incl. its bufio.Reader)", "parser (ParseVCL, ParseSnippetVCL, ParseVCLOrSnippet)", "token", "ast"},
-			"stub": []string{"the byte stream feeding lexer.New (simio.Reader)", "a counting parser.Tokenizer wrapper that forwards to the real lexer"},
+			"stub": []string{"the byte stream feeding lexer.New (simio.Reader)", "a counting parser.Tokenizer wrapper that forwards to the real lexer", "sync.Pool of the lexer (simsync.Pool: one LIFO stack, emptied before every case)", "who runs next among interleaved users (coroutine scheduler; preemption points inserted by the overlay at the top of every loop body of lexer/ and parser/)"},
 		}
 	case "C19":
 		return map[string]any{
 			"real": []string{"ast/codec Encoder and Decoder", "plugin.ReadLinterRequest", "lexer+parser (to obtain statements)"},
-			"stub": []string{"the pipe between linter and plugin (simio.Reader)"},
+			"stub": []string{"the pipe between linter and plugin (simio.Reader; its end is EOF, a cut, an error, or a peer that keeps it open)", "sync.Pool of the codec (simsync.Pool)", "who runs next among interleaved users (coroutine scheduler; preemption points at the top of every loop body of ast/)"},
 		}
 	case "C06", "C08":
 		return map[string]any{
@@ -21,8 +21,9 @@ func components(id string) map[string]any {
 		}
 	case "C11":
 		return map[string]any{
-			"real": []string{"linter, linter/context, lexer, parser"},
-			"stub": []string{"Go map iteration order in linter packages (simmap via source overlay)", "module store (simfs via resolver.Resolver)"},
+			"real":                            []string{"linter, linter/context, lexer, parser"},
+			"real_in_the_directory_tree_mode": []string{"resolver.FileResolver and the kernel's file system (a per-case temporary tree)"},
+			"stub":                            []string{"Go map iteration order in linter packages (simmap via source overlay)", "module store (simfs via resolver.Resolver), except in the directory-tree mode where only the Resolve budget (a counting wrapper) is added"},
 		}
 	case "C18":
 		return map[string]any{
@@ -32,12 +33,12 @@ func components(id string) map[string]any {
 	case "C20":
 		return map[string]any{
 			"real": []string{"snippet.Fetch, snippet/remote client+fetcher, snippet/terraform parser+fetcher, snippet templates, EmbedSnippets, parser"},
-			"stub": []string{"Fastly API (simnet.FastlyAPI RoundTripper)", "stdin (simio.Reader)", "clock (synctest)", "sync primitives in snippet/remote (simsync)"},
+			"stub": []string{"Fastly API (simnet.FastlyAPI RoundTripper)", "stdin (simio.Reader)", "clock (synctest)", "sync primitives in snippet/remote (simsync)", "the runner's use of the fetcher's cache (LookupCache / Fetch / WriteCache sequence written out in the harness, because cmd/falco is package main); the cache file itself is real, in a per-case XDG_CACHE_HOME"},
 		}
 	case "C16":
 		return map[string]any{
 			"real": []string{"the whole falco binary built from the working tree", "the Linux kernel's file system"},
-			"stub": []string{"the kernel's answers to chosen syscalls (strace -e inject), RLIMIT_FSIZE (prlimit), credentials (setpriv)"},
+			"stub": []string{"the kernel's answers to chosen syscalls (bin/faultrun, a ptrace supervisor with one global call index), RLIMIT_FSIZE (prlimit), credentials (setpriv)"},
 		}
 	}
 	return nil
@@ -52,7 +53,7 @@ func assumptions(id string) []string {
 	case "C01", "C19":
 		return append(common, "the stream seam is the io.Reader argument; delivery faults are those any pipe or file may legally show (short reads, zero-length reads, early EOF, errors)")
 	case "C16":
-		return append(common, "process-kill crash model (no power loss): data written before SIGKILL is what the kernel keeps", "strace fault injection counts syscalls per thread; the (INJECTED) mark on the intended path is verified for every faulted run")
+		return append(common, "process-kill crash model (no power loss): data written before SIGKILL is what the kernel keeps", "faults are addressed by a global index over the file-related syscalls of the run; that the fault landed on the intended call of the reference run is verified per run (a run whose call order differs is judged as it happened and counted)")
 	case "C06", "C08", "C18", "C20":
 		return append(common, "time is the synctest fake clock (monotonic); origin/API behaviour is a function of the request and the tape", "source overlay (import swaps and yields) preserves behaviour when no scheduler is installed")
 	case "C11":
@@ -63,13 +64,13 @@ func assumptions(id string) []string {
 
 // expectedProbes lists rare-branch probes that must not stay at zero.
 var expectedProbes = map[string][]string{
-	"C19": {"gen_parsed", "short_reads_delivered", "encoding_over_4096", "decode_error_returned"},
-	"C01": {"parse_tree", "short_reads_delivered", "parse_error_located", "cut_inside_token"},
+	"C19": {"gen_parsed", "short_reads_delivered", "encoding_over_4096", "decode_error_returned", "open_stream_decoded", "encoding_rechecked_after_later_encodes", "users_interleaved_inside_codec"},
+	"C01": {"parse_tree", "short_reads_delivered", "parse_error_located", "cut_inside_token", "error_value_rechecked_after_later_parses", "users_interleaved_inside_lexer_or_parser"},
 	"C06": {"hit_branch_taken", "restart_limit_reached", "ratecounter_carried_over", "penaltybox_carried_over"},
 	"C08": {"timeout_fired", "call_depth_guard_reached", "restart_limit_reached", "include_missing_module", "runtime_error_reported", "tester_factory_returned", "tester_error_returned"},
-	"C11": {"map_with_2plus_keys_iterated", "permutation_checked", "diagnostics_reported"},
-	"C18": {"requests_overlapped", "history_linearizable", "plugin_timeout_fired", "model_validation_case"},
-	"C20": {"concurrent_api_requests", "fetch_error_reported"},
+	"C11": {"map_with_2plus_keys_iterated", "permutation_checked", "diagnostics_reported", "linted_from_directory_tree", "relinted_after_another_program", "grammar_program_linted"},
+	"C18": {"requests_overlapped", "history_linearizable", "plugin_timeout_fired", "model_validation_case", "timed_case"},
+	"C20": {"concurrent_api_requests", "fetch_error_reported", "terraform_multi_service_plan", "preempted_inside_rendering_loops", "second_run_after_cache_write", "run_after_refresh"},
 }
 
 func zeroProbes(id, tier string, got map[string]int) []string {
